@@ -25,15 +25,17 @@ type C16Case struct {
 func (c *C16Case) Describe() string { return fmt.Sprintf("subset=%v doc=%q", c.Subset, c.Doc) }
 
 type jsonShape struct {
-	depth     int
-	object    bool
-	escape    bool
-	ws        bool
-	dupKey    bool
+	depth  int
+	object bool
+	escape bool
+	ws     bool
+	dupKey bool
 }
 
 func genJSON(t *rapid.T, depth int) string {
-	wsAny := func() string { return rapid.SampledFrom([]string{"", "", " ", "\n", " \t", "\r\n ", "\n\n"}).Draw(t, "ws") }
+	wsAny := func() string {
+		return rapid.SampledFrom([]string{"", "", " ", "\n", " \t", "\r\n ", "\n\n"}).Draw(t, "ws")
+	}
 	wsSp := func() string { return rapid.SampledFrom([]string{"", "", " ", "\t ", "  "}).Draw(t, "wssp") }
 	str := func() string {
 		n := rapid.IntRange(0, 4).Draw(t, "sl")
@@ -136,6 +138,55 @@ func genC16(t *rapid.T) interface{} {
 		}
 	}
 	return c
+}
+
+// jsonEqual compares decoded documents; an integer may be delivered as int64 or as the float64
+// encoding/json itself would produce (the property fixes the value, not Go's number type).
+func jsonEqual(want, got interface{}) bool {
+	switch w := want.(type) {
+	case int64:
+		switch g := got.(type) {
+		case int64:
+			return w == g
+		case int:
+			return w == int64(g)
+		case float64:
+			return float64(w) == g
+		}
+		return false
+	case float64:
+		switch g := got.(type) {
+		case float64:
+			return w == g
+		case int64:
+			return w == float64(g)
+		}
+		return false
+	case []interface{}:
+		g, ok := got.([]interface{})
+		if !ok || len(g) != len(w) {
+			return false
+		}
+		for i := range w {
+			if !jsonEqual(w[i], g[i]) {
+				return false
+			}
+		}
+		return true
+	case map[string]interface{}:
+		g, ok := got.(map[string]interface{})
+		if !ok || len(g) != len(w) {
+			return false
+		}
+		for k, wv := range w {
+			gv, ok := g[k]
+			if !ok || !jsonEqual(wv, gv) {
+				return false
+			}
+		}
+		return true
+	}
+	return reflect.DeepEqual(want, got)
 }
 
 func normStd(v interface{}) (interface{}, bool) {
@@ -263,7 +314,7 @@ func checkJSONDoc(doc string, subset bool, st *Stats) (err error) {
 		if gerr != nil {
 			return fmt.Errorf("document of the supported subset rejected: %v", gerr)
 		}
-		if !reflect.DeepEqual(nv, got) {
+		if !jsonEqual(nv, got) {
 			return fmt.Errorf("value differs from encoding/json:\n parsley      %#v\n encoding/json %#v", got, nv)
 		}
 		if st != nil {
@@ -302,12 +353,12 @@ func checkJSONDoc(doc string, subset bool, st *Stats) (err error) {
 			if gerr != nil {
 				return fmt.Errorf("valid for encoding/json and for the grammar model but rejected: %v", gerr)
 			}
-			if !reflect.DeepEqual(nv, got) && reflect.DeepEqual(mv, got) {
+			if !jsonEqual(nv, got) && jsonEqual(mv, got) {
 				// the two references disagree on the value (outside the subset): nothing demanded
 				if st != nil {
 					st.Class("references disagree on the value")
 				}
-			} else if !reflect.DeepEqual(nv, got) {
+			} else if !jsonEqual(nv, got) {
 				return fmt.Errorf("value differs from encoding/json and from the grammar model:\n parsley %#v\n encoding/json %#v\n model %#v", got, nv, mv)
 			}
 		}
